@@ -111,12 +111,79 @@ pub mod iter {
             for (a,b) in cuts { let mut part = identity(); for x in it.by_ref().take(b-a) { part = op(part, x); } acc = op(acc, part); }
             acc
         }
+        fn filter_map<P, R: 'a>(self, p: P) -> ParMulti<'a, R> where P: Fn(Self::Item) -> Option<R> + 'a {
+            let p = std::rc::Rc::new(p);
+            ParMulti { jobs: self.into_multi().jobs.into_iter().map(|j| { let p=p.clone(); Box::new(move || j().into_iter().filter_map(|x| p(x)).collect()) as Thunk<'a, Vec<R>> }).collect() }
+        }
+        fn inspect<F>(self, f: F) -> ParMulti<'a, Self::Item> where F: Fn(&Self::Item) + 'a {
+            let f = std::rc::Rc::new(f);
+            ParMulti { jobs: self.into_multi().jobs.into_iter().map(|j| { let f=f.clone(); Box::new(move || { let v = j(); for x in &v { f(x) } v }) as Thunk<'a, Vec<Self::Item>> }).collect() }
+        }
+        fn flatten(self) -> ParMulti<'a, <Self::Item as IntoParallelIterator<'a>>::Item> where Self::Item: IntoParallelIterator<'a> {
+            ParMulti { jobs: self.into_multi().jobs.into_iter().map(|j| Box::new(move || { let mut out=Vec::new(); for x in j() { out.extend(collect_vec(x.into_par_iter())); } out }) as Thunk<'a, Vec<_>>).collect() }
+        }
+        fn flatten_iter(self) -> ParMulti<'a, <Self::Item as IntoIterator>::Item> where Self::Item: IntoIterator, <Self::Item as IntoIterator>::Item: 'a {
+            ParMulti { jobs: self.into_multi().jobs.into_iter().map(|j| Box::new(move || { let mut out=Vec::new(); for x in j() { out.extend(x); } out }) as Thunk<'a, Vec<_>>).collect() }
+        }
+        fn map_with<T: Clone + 'a, F, R: 'a>(self, init: T, f: F) -> ParMulti<'a, R> where F: Fn(&mut T, Self::Item) -> R + 'a {
+            let f = std::rc::Rc::new(f);
+            ParMulti { jobs: self.into_multi().jobs.into_iter().map(|j| { let f=f.clone(); let mut st=init.clone(); Box::new(move || j().into_iter().map(|x| f(&mut st, x)).collect()) as Thunk<'a, Vec<R>> }).collect() }
+        }
+        fn for_each_with<T: Clone + 'a, F>(self, init: T, f: F) where F: Fn(&mut T, Self::Item) + 'a {
+            let f=&f;
+            let jobs: Vec<Thunk<'_, ()>> = self.into_multi().jobs.into_iter().map(|j| { let mut st=init.clone(); Box::new(move || { for x in j() { f(&mut st, x) } }) as Thunk<'_, ()> }).collect();
+            run_all(jobs);
+        }
+        /// some element satisfying the predicate: the first one in *schedule* order
+        fn find_any<P>(self, p: P) -> Option<Self::Item> where P: Fn(&Self::Item) -> bool + 'a {
+            let jobs = self.into_multi().jobs; let n=jobs.len(); let order=sim::perm(n);
+            let mut jobs: Vec<Option<Thunk<'a, Vec<Self::Item>>>> = jobs.into_iter().map(Some).collect();
+            for i in order { for x in (jobs[i].take().unwrap())() { if p(&x) { return Some(x); } } }
+            None
+        }
+        fn find_first<P>(self, p: P) -> Option<Self::Item> where P: Fn(&Self::Item) -> bool + 'a { collect_vec(self).into_iter().find(|x| p(x)) }
+        fn find_map_any<P, R>(self, p: P) -> Option<R> where P: Fn(Self::Item) -> Option<R> + 'a {
+            let jobs = self.into_multi().jobs; let n=jobs.len(); let order=sim::perm(n);
+            let mut jobs: Vec<Option<Thunk<'a, Vec<Self::Item>>>> = jobs.into_iter().map(Some).collect();
+            for i in order { for x in (jobs[i].take().unwrap())() { if let Some(r) = p(x) { return Some(r); } } }
+            None
+        }
+        fn any<P>(self, p: P) -> bool where P: Fn(Self::Item) -> bool + 'a { collect_vec(self).into_iter().any(|x| p(x)) }
+        fn all<P>(self, p: P) -> bool where P: Fn(Self::Item) -> bool + 'a { collect_vec(self).into_iter().all(|x| p(x)) }
+        fn min(self) -> Option<Self::Item> where Self::Item: Ord { collect_vec(self).into_iter().min() }
+        fn max(self) -> Option<Self::Item> where Self::Item: Ord { collect_vec(self).into_iter().max() }
+        fn min_by_key<K: Ord, F>(self, f: F) -> Option<Self::Item> where F: Fn(&Self::Item) -> K + 'a { collect_vec(self).into_iter().min_by_key(|x| f(x)) }
+        fn max_by_key<K: Ord, F>(self, f: F) -> Option<Self::Item> where F: Fn(&Self::Item) -> K + 'a { collect_vec(self).into_iter().max_by_key(|x| f(x)) }
+        fn min_by<F>(self, f: F) -> Option<Self::Item> where F: Fn(&Self::Item, &Self::Item) -> std::cmp::Ordering + 'a { collect_vec(self).into_iter().min_by(|a, b| f(a, b)) }
+        fn max_by<F>(self, f: F) -> Option<Self::Item> where F: Fn(&Self::Item, &Self::Item) -> std::cmp::Ordering + 'a { collect_vec(self).into_iter().max_by(|a, b| f(a, b)) }
+        fn reduce_with<OP>(self, op: OP) -> Option<Self::Item> where OP: Fn(Self::Item, Self::Item) -> Self::Item {
+            let items = collect_vec(self); let n=items.len(); if n==0 { return None; } let cuts=sim::cuts(n);
+            let mut it = items.into_iter(); let mut acc: Option<Self::Item> = None;
+            for (a,b) in cuts { let mut part: Option<Self::Item> = None; for x in it.by_ref().take(b-a) { part = Some(match part { None => x, Some(p) => op(p, x) }); } if let Some(p) = part { acc = Some(match acc { None => p, Some(q) => op(q, p) }); } }
+            acc
+        }
+        fn try_reduce<T, OP, ID>(self, identity: ID, op: OP) -> Option<T> where Self: ParallelIterator<'a, Item = Option<T>>, OP: Fn(T, T) -> Option<T>, ID: Fn() -> T {
+            let mut acc = identity();
+            for x in collect_vec(self) { acc = op(acc, x?)?; }
+            Some(acc)
+        }
+        fn partition<A, B, P>(self, p: P) -> (A, B) where A: Default + Extend<Self::Item>, B: Default + Extend<Self::Item>, P: Fn(&Self::Item) -> bool + 'a {
+            let (mut a, mut b) = (A::default(), B::default());
+            for x in collect_vec(self) { if p(&x) { a.extend(std::iter::once(x)) } else { b.extend(std::iter::once(x)) } }
+            (a, b)
+        }
         fn fold<T: 'a, ID, F>(self, identity: ID, fold_op: F) -> ParMulti<'a, T> where F: Fn(T, Self::Item) -> T + 'a, ID: Fn() -> T + 'a {
             let items = collect_vec(self); let n=items.len(); let cuts=sim::cuts(n);
             let mut it = items.into_iter(); let mut parts=Vec::new();
             for (a,b) in cuts { let mut acc=identity(); for x in it.by_ref().take(b-a) { acc=fold_op(acc,x); } parts.push(acc); }
             ParMulti { jobs: parts.into_iter().map(|p| Box::new(move || vec![p]) as Thunk<'a, Vec<T>>).collect() }
         }
+    }
+    impl<'a, T: 'a + Clone> Par<'a, &'a T> {
+        pub fn cloned(self) -> Par<'a, T> { self.map(|x: &T| x.clone()) }
+    }
+    impl<'a, T: 'a + Copy> Par<'a, &'a T> {
+        pub fn copied(self) -> Par<'a, T> { self.map(|x: &T| *x) }
     }
     fn unimplemented_shape<'a, I: ParallelIterator<'a>, F, R: 'a>(it: I, f: F) -> ParMulti<'a, R> where F: Fn(I::Item) -> R + 'a {
         let f = std::rc::Rc::new(f);
@@ -137,6 +204,24 @@ pub mod iter {
         fn enumerate(self) -> Par<'a, (usize, Self::Item)> { Par { jobs: self.into_par().jobs.into_iter().enumerate().map(|(i,j)| Box::new(move || (i, j())) as Thunk<'a, (usize, Self::Item)>).collect() } }
         fn zip<Z>(self, other: Z) -> Par<'a, (Self::Item, <Z::Iter as ParallelIterator<'a>>::Item)> where Z: IntoParallelIterator<'a>, Z::Iter: IndexedParallelIterator<'a> {
             Par { jobs: self.into_par().jobs.into_iter().zip(other.into_par_iter().into_par().jobs).map(|(a,b)| Box::new(move || (a(), b())) as Thunk<'a, _>).collect() }
+        }
+        fn zip_eq<Z>(self, other: Z) -> Par<'a, (Self::Item, <Z::Iter as ParallelIterator<'a>>::Item)> where Z: IntoParallelIterator<'a>, Z::Iter: IndexedParallelIterator<'a> {
+            let a = self.into_par().jobs; let b = other.into_par_iter().into_par().jobs;
+            assert_eq!(a.len(), b.len(), "iterators must have the same length");
+            Par { jobs: a.into_iter().zip(b).map(|(a,b)| Box::new(move || (a(), b())) as Thunk<'a, _>).collect() }
+        }
+        fn collect_into_vec(self, target: &mut Vec<Self::Item>) { *target = collect_vec(self.into_par()); }
+        fn position_any<P>(self, p: P) -> Option<usize> where P: Fn(Self::Item) -> bool + 'a {
+            let jobs = self.into_par().jobs; let n=jobs.len(); let order=sim::perm(n);
+            let mut jobs: Vec<Option<Thunk<'a, Self::Item>>> = jobs.into_iter().map(Some).collect();
+            for i in order { if p((jobs[i].take().unwrap())()) { return Some(i); } }
+            None
+        }
+        fn position_first<P>(self, p: P) -> Option<usize> where P: Fn(Self::Item) -> bool + 'a { collect_vec(self.into_par()).into_iter().position(|x| p(x)) }
+        fn interleave<Z>(self, other: Z) -> Par<'a, Self::Item> where Z: IntoParallelIterator<'a, Item = Self::Item>, Z::Iter: IndexedParallelIterator<'a> {
+            let mut a = self.into_par().jobs.into_iter(); let mut b = other.into_par_iter().into_par().jobs.into_iter(); let mut out = Vec::new();
+            loop { match (a.next(), b.next()) { (None, None) => break, (x, y) => { if let Some(x)=x { out.push(x) } if let Some(y)=y { out.push(y) } } } }
+            Par { jobs: out }
         }
         fn rev(self) -> Par<'a, Self::Item> { let mut j=self.into_par().jobs; j.reverse(); Par{jobs:j} }
         fn skip(self, n: usize) -> Par<'a, Self::Item> { Par{ jobs: self.into_par().jobs.into_iter().skip(n).collect() } }
@@ -177,6 +262,12 @@ pub mod iter {
     pub trait IntoParallelRefMutIterator<'a> { type Iter: ParallelIterator<'a, Item = Self::Item>; type Item: 'a; fn par_iter_mut(&'a mut self) -> Self::Iter; }
     impl<'a, I: 'a + ?Sized> IntoParallelRefMutIterator<'a> for I where &'a mut I: IntoParallelIterator<'a> { type Iter = <&'a mut I as IntoParallelIterator<'a>>::Iter; type Item = <&'a mut I as IntoParallelIterator<'a>>::Item; fn par_iter_mut(&'a mut self) -> Self::Iter { self.into_par_iter() } }
 
+    pub trait ParallelExtend<'a, T: 'a> { fn par_extend<I: IntoParallelIterator<'a, Item = T>>(&mut self, it: I); }
+    impl<'a, T: 'a> ParallelExtend<'a, T> for Vec<T> { fn par_extend<I: IntoParallelIterator<'a, Item = T>>(&mut self, it: I) { self.extend(collect_vec(it.into_par_iter())) } }
+    impl<'a, T: 'a + Ord> IntoParallelIterator<'a> for &'a std::collections::BTreeSet<T> { type Iter = Par<'a, &'a T>; type Item = &'a T; fn into_par_iter(self) -> Self::Iter { from_iter(self.iter()) } }
+    impl<'a, K: 'a + Ord, V: 'a> IntoParallelIterator<'a> for std::collections::BTreeMap<K, V> { type Iter = Par<'a, (K, V)>; type Item = (K, V); fn into_par_iter(self) -> Self::Iter { from_iter(self.into_iter()) } }
+    impl<'a, T: 'a> IntoParallelIterator<'a> for &'a std::collections::VecDeque<T> { type Iter = Par<'a, &'a T>; type Item = &'a T; fn into_par_iter(self) -> Self::Iter { from_iter(self.iter()) } }
+    impl<'a, T: 'a> IntoParallelIterator<'a> for Option<T> { type Iter = Par<'a, T>; type Item = T; fn into_par_iter(self) -> Self::Iter { from_iter(self.into_iter()) } }
     pub trait ParallelBridge<'a>: Sized { type Item: 'a; fn par_bridge(self) -> ParMulti<'a, Self::Item>; }
     impl<'a, T: 'a, I: Iterator<Item = T>> ParallelBridge<'a> for I { type Item = T; fn par_bridge(self) -> ParMulti<'a, T> { from_iter(self).into_multi() } }
 }
@@ -186,9 +277,68 @@ pub mod slice {
     pub trait ParallelSlice<T> { fn as_parallel_slice(&self) -> &[T];
         fn par_chunks<'a>(&'a self, size: usize) -> Par<'a, &'a [T]> where T: 'a { Par { jobs: self.as_parallel_slice().chunks(size).map(|c| Box::new(move || c) as Thunk<'a, &'a [T]>).collect() } } }
     impl<T> ParallelSlice<T> for [T] { fn as_parallel_slice(&self) -> &[T] { self } }
+    pub trait ParallelSliceExtra<T> { fn as_ps(&self) -> &[T];
+        fn par_windows<'a>(&'a self, size: usize) -> Par<'a, &'a [T]> where T: 'a { Par { jobs: self.as_ps().windows(size).map(|c| Box::new(move || c) as Thunk<'a, &'a [T]>).collect() } }
+        fn par_chunks_exact<'a>(&'a self, size: usize) -> Par<'a, &'a [T]> where T: 'a { Par { jobs: self.as_ps().chunks_exact(size).map(|c| Box::new(move || c) as Thunk<'a, &'a [T]>).collect() } } }
+    impl<T> ParallelSliceExtra<T> for [T] { fn as_ps(&self) -> &[T] { self } }
+    pub trait ParallelSliceMutExtra<T> { fn as_psm(&mut self) -> &mut [T];
+        fn par_chunks_exact_mut<'a>(&'a mut self, size: usize) -> Par<'a, &'a mut [T]> where T: 'a { Par { jobs: self.as_psm().chunks_exact_mut(size).map(|c| Box::new(move || c) as Thunk<'a, &'a mut [T]>).collect() } }
+        fn par_sort(&mut self) where T: Ord { self.as_psm().sort() }
+        fn par_sort_unstable(&mut self) where T: Ord { self.as_psm().sort_unstable() }
+        fn par_sort_by<F: Fn(&T, &T) -> std::cmp::Ordering>(&mut self, f: F) { self.as_psm().sort_by(|a, b| f(a, b)) }
+        fn par_sort_unstable_by<F: Fn(&T, &T) -> std::cmp::Ordering>(&mut self, f: F) { self.as_psm().sort_unstable_by(|a, b| f(a, b)) }
+        fn par_sort_by_key<K: Ord, F: Fn(&T) -> K>(&mut self, f: F) { self.as_psm().sort_by_key(|a| f(a)) }
+        fn par_sort_unstable_by_key<K: Ord, F: Fn(&T) -> K>(&mut self, f: F) { self.as_psm().sort_unstable_by_key(|a| f(a)) } }
+    impl<T> ParallelSliceMutExtra<T> for [T] { fn as_psm(&mut self) -> &mut [T] { self } }
     pub trait ParallelSliceMut<T> { fn as_parallel_slice_mut(&mut self) -> &mut [T];
         fn par_chunks_mut<'a>(&'a mut self, size: usize) -> Par<'a, &'a mut [T]> where T: 'a { Par { jobs: self.as_parallel_slice_mut().chunks_mut(size).map(|c| Box::new(move || c) as Thunk<'a, &'a mut [T]>).collect() } } }
     impl<T> ParallelSliceMut<T> for [T] { fn as_parallel_slice_mut(&mut self) -> &mut [T] { self } }
 }
 
-pub mod prelude { pub use crate::iter::{IndexedParallelIterator, IntoParallelIterator, IntoParallelRefIterator, IntoParallelRefMutIterator, ParallelBridge, ParallelIterator}; pub use crate::slice::{ParallelSlice, ParallelSliceMut}; }
+pub mod prelude { pub use crate::iter::{IndexedParallelIterator, IntoParallelIterator, IntoParallelRefIterator, IntoParallelRefMutIterator, ParallelBridge, ParallelIterator}; pub use crate::slice::{ParallelSlice, ParallelSliceMut, ParallelSliceExtra, ParallelSliceMutExtra}; pub use crate::iter::ParallelExtend; }
+
+/// `rayon::scope` / `spawn`: spawned closures are queued and run, in a seeded order, when the scope ends.
+pub struct Scope<'scope> { queue: std::cell::RefCell<Vec<Box<dyn FnOnce(&Scope<'scope>) + 'scope>>> }
+impl<'scope> Scope<'scope> {
+    pub fn spawn<F: FnOnce(&Scope<'scope>) + 'scope>(&self, f: F) { self.queue.borrow_mut().push(Box::new(f)); }
+}
+pub fn scope<'scope, OP, R>(op: OP) -> R where OP: FnOnce(&Scope<'scope>) -> R {
+    let s = Scope { queue: std::cell::RefCell::new(Vec::new()) };
+    let r = op(&s);
+    loop {
+        let batch: Vec<_> = std::mem::take(&mut *s.queue.borrow_mut());
+        if batch.is_empty() { break; }
+        let order = sim::perm(batch.len());
+        let mut batch: Vec<Option<_>> = batch.into_iter().map(Some).collect();
+        for i in order { (batch[i].take().unwrap())(&s); }
+    }
+    r
+}
+pub fn current_thread_index() -> Option<usize> { Some(0) }
+pub fn max_num_threads() -> usize { 1 << 16 }
+
+/// `ThreadPoolBuilder::new().num_threads(n).build()?.install(f)`: runs `f` with the thread knob set to n.
+#[derive(Default)]
+pub struct ThreadPoolBuilder { n: usize }
+#[derive(Debug)]
+pub struct ThreadPoolBuildError;
+impl std::fmt::Display for ThreadPoolBuildError { fn fmt(&self, f: &mut std::fmt::Formatter<'_>) -> std::fmt::Result { write!(f, "thread pool build error") } }
+impl std::error::Error for ThreadPoolBuildError {}
+pub struct ThreadPool { n: usize }
+impl ThreadPoolBuilder {
+    pub fn new() -> Self { ThreadPoolBuilder { n: 0 } }
+    pub fn num_threads(mut self, n: usize) -> Self { self.n = n; self }
+    pub fn build(self) -> Result<ThreadPool, ThreadPoolBuildError> { Ok(ThreadPool { n: if self.n == 0 { current_num_threads() } else { self.n } }) }
+    pub fn build_global(self) -> Result<(), ThreadPoolBuildError> { if self.n > 0 { sim::SCHED.with(|s| s.borrow_mut().threads = self.n); } Ok(()) }
+}
+impl ThreadPool {
+    pub fn install<OP, R>(&self, op: OP) -> R where OP: FnOnce() -> R {
+        let old = sim::SCHED.with(|s| { let mut s = s.borrow_mut(); let o = s.threads; s.threads = self.n.max(1); o });
+        let r = op();
+        sim::SCHED.with(|s| s.borrow_mut().threads = old);
+        r
+    }
+    pub fn current_num_threads(&self) -> usize { self.n }
+    pub fn join<A, B, RA, RB>(&self, a: A, b: B) -> (RA, RB) where A: FnOnce() -> RA, B: FnOnce() -> RB { self.install(|| join(a, b)) }
+    pub fn scope<'scope, OP, R>(&self, op: OP) -> R where OP: FnOnce(&Scope<'scope>) -> R { self.install(|| scope(op)) }
+}
